@@ -157,7 +157,45 @@ def pool (impl : String) : P Verdict := do
   let kind ← tok; let _ ← nat; let _ ← nat; let iso ← text
   pure (verdictOf impl iso (some iso) [] s!"pool:{kind}")
 
+/-- `C07.ttl <cap> <n> (<time ms> <op> <key> <value> <ttl ms>)*` — a real `ttl_cache::TtlCache<u8,u32>` on its
+own clock against the `TtlMap` model of Model/Flow.lean driven with the instants at which the operations
+actually ran. op: 0 insert, 1 get, 2 get_mut + write, 3 remove, 4 contains_key. An operation that ran within
+3 ms of an entry's expiry instant makes the case unspecified (compared with nothing). -/
+def ttl (impl : String) : P Verdict := do
+  let cap ← nat
+  let ops ← list (do let t ← nat; let o ← nat; let k ← nat; let v ← nat; let tt ← nat; pure (t, o, k, v, tt))
+  let rec go (m : Huginn.Flow.TtlMap Nat Nat) : List (Nat × Nat × Nat × Nat × Nat) → List String × Bool
+    | [] => ([], false)
+    | (t, o, k, v, tt) :: rest =>
+      let near := m.es.any (fun e => (if t > e.exp then t - e.exp else e.exp - t) < 3)
+      let (m', out) : Huginn.Flow.TtlMap Nat Nat × String :=
+        if o == 0 then (m.insert t k v tt, "i")
+        else if o == 1 then (m, match m.get t k with | some x => toString x | none => "-")
+        else if o == 2 then (match m.get t k with | some _ => (m.set t k v, "1") | none => (m, "0"))
+        else if o == 3 then (m.remove k, "r")
+        else (m, if (m.get t k).isSome then "1" else "0")
+      let (outs, nr) := go m' rest
+      (out :: outs, near || nr)
+  let (outs, near) := go { cap := cap } ops
+  let model := ",".intercalate outs
+  -- features exercised: a read that finds an expired entry; an insert that evicts
+  let rec feats (m : Huginn.Flow.TtlMap Nat Nat) : List (Nat × Nat × Nat × Nat × Nat) → Bool × Bool
+    | [] => (false, false)
+    | (t, o, k, v, tt) :: rest =>
+      let expiredRead := o != 0 && o != 3 && (m.find? k).isSome && (m.get t k).isNone
+      let evicts := o == 0 && decide ((m.es.filter (fun e => e.key ≠ k)).length ≥ m.cap)
+      let m' := if o == 0 then m.insert t k v tt else if o == 2 then (match m.get t k with | some _ => m.set t k v | none => m)
+                else if o == 3 then m.remove k else m
+      let r := feats m' rest
+      (expiredRead || r.1, evicts || r.2)
+  let f := feats { cap := cap } ops
+  let ft := (if f.1 then "x" else "") ++ (if f.2 then "e" else "")
+  if near then
+    pure { modelEq := true, specOk := none, tag := "ttl:near-boundary", model := model, spec := "-" }
+  else
+    pure (verdictOf impl model none [] s!"ttl:{ft}")
+
 def handlers : List (String × (String → P Verdict)) :=
-  [("C07.pool", pool), ("C07.tls", tls), ("C07.http", http), ("C07.tcp", tcp), ("C07.uni", uni)]
+  [("C07.ttl", ttl), ("C07.pool", pool), ("C07.tls", tls), ("C07.http", http), ("C07.tcp", tcp), ("C07.uni", uni)]
 
 end Huginn.Drv.C07
